@@ -548,9 +548,13 @@ func toInt64(val interface{}) (n int64, err error) {
 	case int:
 		return int64(x), nil
 	case uint:
-		return int64(x), nil
+		if uint64(x) <= math.MaxInt64 {
+			return int64(x), nil
+		}
 	case uint64:
-		return int64(x), nil
+		if x <= math.MaxInt64 {
+			return int64(x), nil
+		}
 	case int64:
 		return x, nil
 	case string:
